@@ -205,6 +205,99 @@ def run_cyclepoints_array(sh, tab, xlim, rng_bits, driver='cyclepoints_array'):
     return True
 
 
+def check_panel(pl, A, vals, thr_value, fs, vmin, vmax, interp, xlim, col):
+    """One parameter panel: points are (centre, value) of cycles [steps: (last side, next side, value)], every cycle lying
+    entirely inside the view is shown, threshold line at the given level.  Returns a violation dict or None."""
+    if len(pl) < 2:
+        return {'mechanism': 'panel-lines', 'message': 'panel %s has %d lines' % (col, len(pl))}
+    px, py, _ = plotprobe.line_xy(pl[0])
+    thx, thy, _ = plotprobe.line_xy(pl[1])
+    attach.count('C20:panels_checked')
+    if not np.all(thy == thr_value):
+        return {'mechanism': 'threshold-line-level', 'message': 'panel %s: threshold line at %s, threshold given %r' % (col, thy[:2], thr_value)}
+    s = plotprobe.to_samples(px, fs)
+    if s is None:
+        return {'mechanism': 'panel-point-off-grid', 'message': 'panel %s: a point is not at a sample time' % col}
+    # cycles lying entirely inside the view (all their samples are plotted), as in the highlight clause
+    strictly = [i for i in range(len(A['C'])) if A['L'][i] >= vmin and A['N'][i] <= vmax]
+    if interp:
+        drawn = set()
+        for si, yi in zip(s.tolist(), py.tolist()):
+            idx = np.flatnonzero(A['C'] == si)
+            if len(idx) != 1 or not (vals[idx[0]] == yi or (vals[idx[0]] != vals[idx[0]] and yi != yi)):
+                return {'mechanism': 'panel-point-not-a-cycle-value',
+                        'message': 'panel %s: point (sample %d, %r) is not (centre, value) of a cycle%s (xlim=%s, fs=%g)'
+                                   % (col, si, yi, '' if len(idx) != 1 else ' (value of that cycle: %r)' % vals[idx[0]], xlim, fs)}
+            drawn.add(int(idx[0]))
+        miss = [i for i in strictly if i not in drawn]
+        if miss:
+            return {'mechanism': 'panel-cycle-missing',
+                    'message': 'panel %s: cycle %d [%d, %d] lies entirely inside the view [%d, %d] but is not shown (xlim=%s, fs=%g)'
+                               % (col, miss[0], A['L'][miss[0]], A['N'][miss[0]], vmin, vmax, xlim, fs)}
+        return None
+    if len(s) % 2:
+        return {'mechanism': 'panel-step-odd', 'message': 'panel %s: odd number of step points' % col}
+    drawn = set()
+    for j in range(0, len(s), 2):
+        idx = np.flatnonzero(A['L'] == s[j])
+        ok = len(idx) == 1 and A['N'][idx[0]] == s[j + 1]
+        if ok:
+            v0 = vals[idx[0]]
+            ok = all((v0 == yy or (v0 != v0 and yy != yy)) for yy in (py[j], py[j + 1]))
+        if not ok:
+            return {'mechanism': 'panel-step-not-a-cycle-value',
+                    'message': 'panel %s: step (%d..%d, %r) is not (last side, next side, value) of a cycle (xlim=%s, fs=%g)'
+                               % (col, s[j], s[j + 1], py[j], xlim, fs)}
+        drawn.add(int(idx[0]))
+    miss = [i for i in strictly if i not in drawn]
+    if miss:
+        return {'mechanism': 'panel-cycle-missing', 'message': 'panel %s (steps): cycle %d entirely inside the view is not shown (xlim=%s, fs=%g)'
+                                                               % (col, miss[0], xlim, fs)}
+    return None
+
+
+def run_param_direct(sh, tab, xlim, interp, driver='param_direct'):
+    """plot_burst_detect_param on its own axes: the dashed threshold line spans the plotted view."""
+    import matplotlib.pyplot as plt
+    from bycycle.plts import plot_burst_detect_param
+    fs, sig, df = tab['fs'], np.asarray(tab['sig']), tab['df']
+    A = table_arrays(tab)
+    col = 'monotonicity' if tab['method'] == 'cycles' else 'burst_fraction'
+    thr_value = 0.45
+    case = dict(tab, xlim=xlim, interp=interp, figure='param_direct')
+    vs = []
+    plt.close('all')
+    try:
+        with quiet():
+            plot_burst_detect_param(df, sig, fs, col, thr_value, xlim=xlim, interp=interp)
+    except Exception as e:
+        vs.append({'mechanism': 'raised:' + attach.exc_mechanism(e),
+                   'message': 'plot_burst_detect_param raised %r (xlim=%s, n=%d, fs=%g, %s-centred)' % (e, xlim, len(sig), fs, tab['center'])})
+        finish(sh, case, vs, driver)
+        return
+    attach.count('eval:figure_inspected')
+    pl = list(plt.gcf().axes[0].lines)
+    if len(pl) >= 2:
+        thx, _, _ = plotprobe.line_xy(pl[1])
+        V = plotprobe.to_samples(thx, fs)
+        if V is None or len(V) != 2:
+            vs.append({'mechanism': 'threshold-line-span', 'message': 'threshold line does not span sample times: %s' % (thx * fs)})
+        else:
+            # the view must be the window that was asked for: samples with start <= t < stop
+            k0 = 0 if xlim is None else int(round(xlim[0] * fs))
+            k1 = len(sig) - 1 if xlim is None else int(round(xlim[1] * fs)) - 1
+            if (int(V[0]), int(V[1])) != (k0, min(k1, len(sig) - 1)):
+                vs.append({'mechanism': 'panel-view-not-the-window', 'message': 'threshold line spans samples %s, window is [%d, %d]' % (V.tolist(), k0, k1)})
+            else:
+                v = check_panel(pl, A, df[col].to_numpy().astype(float), thr_value, fs, int(V[0]), int(V[1]), interp, xlim, col)
+                if v is not None:
+                    vs.append(v)
+    else:
+        vs.append({'mechanism': 'panel-lines', 'message': 'direct panel has %d lines' % len(pl)})
+    finish(sh, case, vs, driver)
+
+
+
 def run_summary(sh, tab, xlim, plot_only_result, interp, api='func', driver='summary'):
     import matplotlib.pyplot as plt
     from bycycle.plts import plot_burst_detect_summary
@@ -287,60 +380,9 @@ def run_summary(sh, tab, xlim, plot_only_result, interp, api='func', driver='sum
             if vs:
                 break
             col = key.replace('_threshold', '')
-            vals = df[col].to_numpy().astype(float)
-            pl = list(ax.lines)
-            if len(pl) < 2:
-                vs.append({'mechanism': 'panel-lines', 'message': 'panel %s has %d lines' % (col, len(pl))})
-                break
-            px, py, _ = plotprobe.line_xy(pl[0])
-            thx, thy, _ = plotprobe.line_xy(pl[1])
-            attach.count('C20:panels_checked')
-            if not np.all(thy == thr[key]):
-                vs.append({'mechanism': 'threshold-line-level', 'message': 'panel %s: threshold line at %s, threshold given %r' % (col, thy[:2], thr[key])})
-                break
-            s = plotprobe.to_samples(px, fs)
-            if s is None:
-                vs.append({'mechanism': 'panel-point-off-grid', 'message': 'panel %s: a point is not at a sample time' % col})
-                break
-            # cycles lying entirely inside the view (all their samples are plotted), as in the highlight clause
-            strictly = [i for i in range(len(A['C'])) if A['L'][i] >= vmin and A['N'][i] <= vmax]
-            if interp:
-                drawn = set()
-                for si, yi in zip(s.tolist(), py.tolist()):
-                    idx = np.flatnonzero(A['C'] == si)
-                    if len(idx) != 1 or not (vals[idx[0]] == yi or (vals[idx[0]] != vals[idx[0]] and yi != yi)):
-                        vs.append({'mechanism': 'panel-point-not-a-cycle-value',
-                                   'message': 'panel %s: point (sample %d, %r) is not (centre, value) of a cycle%s (xlim=%s, fs=%g)'
-                                              % (col, si, yi, '' if len(idx) != 1 else ' (value of that cycle: %r)' % vals[idx[0]], xlim, fs)})
-                        break
-                    drawn.add(int(idx[0]))
-                else:
-                    miss = [i for i in strictly if i not in drawn]
-                    if miss:
-                        vs.append({'mechanism': 'panel-cycle-missing',
-                                   'message': 'panel %s: cycle %d [%d, %d] lies entirely inside the view [%d, %d] but is not shown (xlim=%s, fs=%g)'
-                                              % (col, miss[0], A['L'][miss[0]], A['N'][miss[0]], vmin, vmax, xlim, fs)})
-            else:
-                if len(s) % 2:
-                    vs.append({'mechanism': 'panel-step-odd', 'message': 'panel %s: odd number of step points' % col})
-                    break
-                drawn = set()
-                for j in range(0, len(s), 2):
-                    idx = np.flatnonzero(A['L'] == s[j])
-                    ok = len(idx) == 1 and A['N'][idx[0]] == s[j + 1]
-                    if ok:
-                        v0 = vals[idx[0]]
-                        ok = all((v0 == yy or (v0 != v0 and yy != yy)) for yy in (py[j], py[j + 1]))
-                    if not ok:
-                        vs.append({'mechanism': 'panel-step-not-a-cycle-value',
-                                   'message': 'panel %s: step (%d..%d, %r) is not (last side, next side, value) of a cycle (xlim=%s, fs=%g)'
-                                              % (col, s[j], s[j + 1], py[j], xlim, fs)})
-                        break
-                    drawn.add(int(idx[0]))
-                else:
-                    miss = [i for i in strictly if i not in drawn]
-                    if miss:
-                        vs.append({'mechanism': 'panel-cycle-missing', 'message': 'panel %s (steps): cycle %d entirely inside the view is not shown' % (col, miss[0])})
+            v = check_panel(list(ax.lines), A, df[col].to_numpy().astype(float), thr[key], fs, vmin, vmax, interp, xlim, col)
+            if v is not None:
+                vs.append(v)
     finish(sh, case, vs, driver)
     return True, nontrivial
 
@@ -372,7 +414,10 @@ def run(sh):
             run_cyclepoints_array(sh, tab, xlim, int(rng.integers(0, 64)))
             ok, nt = run_summary(sh, tab, xlim, bool(rng.random() < 0.3), bool(rng.random() < 0.6),
                                  api='func' if rng.random() < 0.75 else 'obj')
-            sh.note('figures:' + cls, 3)
+            run_param_direct(sh, tab, xlim, bool(rng.random() < 0.5))
+            if rng.random() < 0.3:
+                run_cyclepoints_df(sh, tab, xlim, True, bool(rng.random() < 0.5), plot_sig=False)
+            sh.note('figures:' + cls, 4)
             sh.note('xlim:' + kind)
             sh.case_done(None, nt, key='%d:%d:%s' % (sh.shard, it, kind),
                          sample={'fs': tab['fs'], 'n': len(tab['sig']), 'center': tab['center'], 'method': tab['method'], 'xlim': xlim,
@@ -390,6 +435,8 @@ def replay(sh, driver, case):
         run_cyclepoints_df(sh, tab, xlim, case['plot_extrema'], case['plot_zerox'], case.get('plot_sig', True), driver)
     elif driver == 'summary':
         run_summary(sh, tab, xlim, case['plot_only_result'], case['interp'], case.get('api', 'func'), driver)
+    elif driver == 'param_direct':
+        run_param_direct(sh, tab, xlim, case['interp'], driver)
     elif driver == 'cyclepoints_array':
         tab = dict(sig=case['sig'], fs=case['fs'], f_range=tuple(case['f_range']))
         for bits in range(64):
